@@ -78,3 +78,52 @@ def tree_to_poly(t, leaf):
         a, b = tree_to_poly(t[2], leaf), tree_to_poly(t[3], leaf)
         return a + b if t[1] == "Add" else (a - b if t[1] == "Sub" else a * b)
     raise NotPolynomial(repr(t)[:200])
+
+
+def normal_form(t, consts=()):
+    """Normal form of an integer index expression: a polynomial whose symbols are named constants / parameters and
+    the truncating quotients / remainders occurring in it (each quotient an opaque symbol named by the normal forms of
+    its own operands, constant quotients folded).  Equal normal forms => equal functions (exact integer arithmetic is
+    assumed, i.e. no overflow); the converse does not hold."""
+    def leaf(n):
+        if n[0] == "const" and isinstance(n[1], str):
+            return n[1]
+        if n[0] == "param":
+            return "p%d" % n[1]
+        if n[0] == "bin" and n[1] in ("Div", "Rem"):
+            a, b = normal_form(n[2]), normal_form(n[3])
+            if a is None or b is None:
+                return None
+            if not any(k for k in a.t) and not any(k for k in b.t):
+                return None   # constant: folded below
+            return "%s(%r,%r)" % (n[1], a, b)
+        return None
+
+    def conv(n):
+        if n[0] == "bin" and n[1] in ("Div", "Rem"):
+            a, b = conv(n[2]), conv(n[3])
+            ca = a.t.get((), 0) if set(a.t) <= {()} else None
+            cb = b.t.get((), 0) if set(b.t) <= {()} else None
+            if ca is not None and cb not in (None, 0) and ca.denominator == 1 and cb.denominator == 1:
+                q = int(ca) // int(cb) if n[1] == "Div" else int(ca) % int(cb)
+                return Poly.const(q)
+            return Poly.sym("%s(%r,%r)" % (n[1], a, b))
+        s_ = None
+        if n[0] == "const" and isinstance(n[1], str):
+            s_ = n[1]
+        elif n[0] == "param":
+            s_ = "p%d" % n[1]
+        if s_ is not None:
+            return Poly.sym(s_)
+        if n[0] == "const" and isinstance(n[1], int) and not isinstance(n[1], bool):
+            return Poly.const(n[1])
+        if n[0] == "cast":
+            return conv(n[1])
+        if n[0] == "bin" and n[1] in ("Add", "Sub", "Mul"):
+            a, b = conv(n[2]), conv(n[3])
+            return a + b if n[1] == "Add" else (a - b if n[1] == "Sub" else a * b)
+        raise NotPolynomial(repr(n)[:200])
+    try:
+        return conv(t)
+    except NotPolynomial:
+        return None
